@@ -292,6 +292,19 @@ def sample_column_stores(ctx):
             p = p._parent
         fr = Frame(fn, {}, cls)
         k = cp.value(st.targets[0].slice, fr)
+        # a store shared by several branches through a local (`values = ...` in each branch, one `output[c] = values` after them):
+        # one virtual store per definition of the local, reached when that definition is
+        defs = []
+        if loop is not None and isinstance(st.value, ast.Name):
+            defs = [a for a in ast.walk(loop) if isinstance(a, ast.Assign) and len(a.targets) == 1 and isinstance(a.targets[0], ast.Name)
+                    and a.targets[0].id == st.value.id and a.lineno < st.lineno]
+        if len(defs) >= 2:
+            for d in defs:
+                shim = ast.copy_location(ast.Assign(targets=st.targets, value=d.value), d)
+                shim._parent = getattr(d, '_parent', None)
+                cd = Conds(prog, fn)
+                out.append((shim, k, cp.value(d.value, fr), cd.reach(d, stmts=loop.body), loop))
+            continue
         v = cp.value(st.value, fr)
         reach = None
         if loop is not None:
